@@ -41,6 +41,9 @@ type MuxW struct {
 	Listen  []int       `json:"listen,omitempty"` // ids opened through Listen()/Accept() on end B
 	Streams []MuxStream `json:"streams"`
 	Faults  []MuxFault  `json:"faults,omitempty"`
+	// Orphans: streams written on a connection id that is open only at the writing end; the
+	// receiving mux drops those frames (documented), which must not disturb any other stream.
+	Orphans []MuxStream `json:"orphans,omitempty"`
 	Closers int         `json:"closers"` // concurrent closers of the final orderly close
 	CloseB  bool        `json:"close_b"` // final close on end B instead of A
 }
@@ -77,6 +80,15 @@ func muxGen(focus string) func(rng *rand.Rand, conf string, idx int) any {
 					st.Sizes = append(st.Sizes, sz)
 				}
 				w.Streams = append(w.Streams, st)
+			}
+		}
+		if rng.Intn(3) == 0 {
+			for n, cnt := 0, 1+rng.Intn(2); n < cnt; n++ {
+				st := MuxStream{ID: 20 + n, Dir: rng.Intn(2)}
+				for k, m := 0, 1+rng.Intn(4); k < m; k++ {
+					st.Sizes = append(st.Sizes, pick(rng, []int{0, 1, 9, 100, 300, 1000, 4096}))
+				}
+				w.Orphans = append(w.Orphans, st)
 			}
 		}
 		if conf == "grid" {
@@ -271,6 +283,28 @@ func muxRun(t *testing.T, wl any, sc SchedCfg) *Result {
 					sd.got = append(sd.got, buf[:n]...)
 				}
 				sd.rdone = true
+			})
+		}
+		// orphan streams: the id is opened at the writing end only
+		for oi, st := range w.Orphans {
+			st := st
+			m := muxes[st.Dir]
+			oc, err := m.Open(multiplex.ConnID(st.ID))
+			if err != nil {
+				res.Violate(w.Focus+".setup", "open orphan %d: %v", st.ID, err)
+				return
+			}
+			e.S.Probe("C10.frames-for-a-connection-not-open-at-the-receiver")
+			e.Task(fmt.Sprintf("orphan-writer-%d", oi), func() {
+				off := 0
+				for _, sz := range st.Sizes {
+					p := make([]byte, sz)
+					muxStamp(st.ID, st.Dir, off, p)
+					if _, err := oc.Write(p); err != nil {
+						return
+					}
+					off += sz
+				}
 			})
 		}
 		// faults
@@ -561,6 +595,11 @@ func muxShrink(wl any) []any {
 	for i := range w.Faults {
 		c := jsonClone(w)
 		c.Faults = append(c.Faults[:i], c.Faults[i+1:]...)
+		out = append(out, c)
+	}
+	for i := range w.Orphans {
+		c := jsonClone(w)
+		c.Orphans = append(c.Orphans[:i], c.Orphans[i+1:]...)
 		out = append(out, c)
 	}
 	for i := range w.Streams {
